@@ -37,8 +37,9 @@ struct WRun {
 }
 
 /// Runs the writer scenario on a faulty sink. Panics are reported as Err(message).
-fn run_writer(s: &WScenario, fail_at: usize, sticky: bool, record: bool) -> Result<WRun, String> {
-    let st: Arc<FaultState> = FaultState::new(usize::MAX, sticky, record);
+fn run_writer(s: &WScenario, fail_at: usize, mode: (bool, u8), record: bool) -> Result<WRun, String> {
+    let sticky = format!("{}, kind={}", mode.0, crate::sio::ek_name(mode.1));
+    let st: Arc<FaultState> = FaultState::new_kind(usize::MAX, mode.0, record, mode.1);
     // the base archive (if any) is produced fault-free
     let base_bytes = match &s.base {
         Some(b) => gen::run_program(b, false).map_err(|e| format!("harness: base program refused: {e}"))?,
@@ -127,6 +128,10 @@ fn op_name(op: &Op) -> &'static str {
     }
 }
 
+/// (sticky, error kind) of the injected failure. A sticky `Interrupted` would make std's retry loops spin
+/// forever (that is std's contract, not the crate's), so transient kinds are one-shot only.
+const MODES: [(bool, u8); 5] = [(false, crate::sio::EK_OTHER), (true, crate::sio::EK_OTHER), (false, crate::sio::EK_EOF), (false, crate::sio::EK_INTR), (true, crate::sio::EK_EOF)];
+const MODES_ONESHOT: [(bool, u8); 3] = [(false, crate::sio::EK_OTHER), (false, crate::sio::EK_EOF), (false, crate::sio::EK_INTR)];
 static FAULT_RUNS: AtomicU64 = AtomicU64::new(0);
 static BY_KIND: [AtomicU64; 4] = [AtomicU64::new(0), AtomicU64::new(0), AtomicU64::new(0), AtomicU64::new(0)];
 
@@ -141,7 +146,7 @@ fn passwords_of(s: &WScenario) -> Vec<Option<Vec<u8>>> {
 }
 
 fn sweep_writer(s: &WScenario, info: &mut Info) -> Result<(), String> {
-    let r0 = run_writer(s, usize::MAX, false, true)?;
+    let r0 = run_writer(s, usize::MAX, (false, 0), true)?;
     if let Some(e) = &r0.first_err {
         return Err(format!("harness: fault-free run reports an error: {e}"));
     }
@@ -149,10 +154,11 @@ fn sweep_writer(s: &WScenario, info: &mut Info) -> Result<(), String> {
     let l0 = if s.by_drop { None } else { Some(logical(r0.bytes.as_ref().ok_or("harness: no bytes")?, &pws).map_err(|e| format!("harness: fault-free archive unreadable: {e}"))?) };
     info.nontrivial = r0.ops > 0;
     for k in 0..r0.ops {
-        for sticky in [false, true] {
+        for mode in MODES {
+            let sticky = format!("{}, kind={}", mode.0, crate::sio::ek_name(mode.1));
             FAULT_RUNS.fetch_add(1, Ordering::Relaxed);
             BY_KIND[r0.kinds[k] as usize].fetch_add(1, Ordering::Relaxed);
-            let r = run_writer(s, k, sticky, false)?;
+            let r = run_writer(s, k, mode, false)?;
             if r.first_err.is_none() {
                 // no call reported the failure: the outcome must be the failure-free result
                 if let (Some(l0), Some(b)) = (&l0, &r.bytes) {
@@ -186,8 +192,8 @@ pub struct RScenario {
 }
 
 fn sweep_reader(bytes: &[u8], pws: &[Option<Vec<u8>>], stream: bool, start: usize, info: &mut Info) -> Result<(), String> {
-    let run = |fail_at: usize, sticky: bool, record: bool| -> Result<(Result<Vec<EObs>, ()>, usize, Vec<u8>), String> {
-        let st = FaultState::new(fail_at, sticky, record);
+    let run = |fail_at: usize, mode: (bool, u8), record: bool| -> Result<(Result<Vec<EObs>, ()>, usize, Vec<u8>), String> {
+        let st = FaultState::new_kind(fail_at, mode.0, record, mode.1);
         let r = if stream {
             let (v, complete) = observe_stream(NoSeek(FaultIo::new(Cursor::new(&bytes[start..]), st.clone())), &[4096])?;
             if complete {
@@ -202,18 +208,19 @@ fn sweep_reader(bytes: &[u8], pws: &[Option<Vec<u8>>], stream: bool, start: usiz
         let kinds = st.kinds.lock().unwrap().clone();
         Ok((r, st.count(), kinds))
     };
-    let (r0, n, kinds) = catch(|| run(usize::MAX, false, true)).map_err(|p| format!("harness: fault-free read panicked: {p}"))??;
+    let (r0, n, kinds) = catch(|| run(usize::MAX, (false, 0), true)).map_err(|p| format!("harness: fault-free read panicked: {p}"))??;
     let r0 = r0.map_err(|_| "harness: fault-free open failed".to_string())?;
     info.nontrivial = n > 0 && !r0.is_empty();
     for k in 0..n {
         // streaming: one-shot only. A sticky failure also hits the drop-time drain of the entry
         // whose read just failed, and that drain panics by design ("Could not consume all of the
         // output of the current ZipFile") - a Drop, not a Result-returning call.
-        for sticky in if stream { &[false][..] } else { &[false, true][..] } {
-            let sticky = *sticky;
+        for mode in if stream { &MODES_ONESHOT[..] } else { &MODES[..] } {
+            let mode = *mode;
+            let sticky = format!("{}, kind={}", mode.0, crate::sio::ek_name(mode.1));
             FAULT_RUNS.fetch_add(1, Ordering::Relaxed);
             BY_KIND[kinds[k] as usize].fetch_add(1, Ordering::Relaxed);
-            let (r, _, _) = catch(|| run(k, sticky, false)).map_err(|p| format!("PANIC in the {} reader with a fault injected at I/O call {k} ({}; sticky={sticky}): {p}", if stream { "streaming" } else { "seekable" }, kind_name(kinds[k])))??;
+            let (r, _, _) = catch(|| run(k, mode, false)).map_err(|p| format!("PANIC in the {} reader with a fault injected at I/O call {k} ({}; sticky={sticky}): {p}", if stream { "streaming" } else { "seekable" }, kind_name(kinds[k])))??;
             match r {
                 Err(()) => {} // open reported an error
                 Ok(v) => {
@@ -258,9 +265,10 @@ fn sweep_big_open(n_entries: u32, kmax: usize, append: bool) -> Result<(), Strin
         c.into_inner()
     };
     for k in 0..kmax {
-        for sticky in [false, true] {
+        for mode in MODES {
+            let sticky = format!("{}, kind={}", mode.0, crate::sio::ek_name(mode.1));
             FAULT_RUNS.fetch_add(1, Ordering::Relaxed);
-            let st = FaultState::new(k, sticky, false);
+            let st = FaultState::new_kind(k, mode.0, false, mode.1);
             if !append {
                 let r = catch(|| zip::ZipArchive::new(FaultIo::new(Cursor::new(&bytes[..]), st.clone()))).map_err(|p| format!("PANIC in ZipArchive::new of a {n_entries}-entry archive with a fault at I/O call {k} (sticky={sticky}): {p}"))?;
                 if let Ok(mut za) = r {
@@ -300,7 +308,7 @@ fn sweep_big_open(n_entries: u32, kmax: usize, append: bool) -> Result<(), Strin
 }
 
 pub fn run(ctx: &mut Ctx) {
-    ctx.rule("each scenario is first run failure-free under a counting stream (n I/O calls), then re-run with a hard error injected at EVERY call index k<n, once as a one-shot and once as a sticky failure; after the first error the scenario keeps issuing its remaining calls, then finish(), a second finish() and drop. readers: open + read every entry (seekable; streaming fully consumed) of the seed archives (plain, ZIP64, ZipCrypto, AES) and generated archives. writers: generated programs over all entry kinds, methods, extra data, aligned, ZipCrypto, optional append base and raw copies, completed by finish or drop. big_open: archives with > 65535 entries, a fault at every one of the first K I/O calls (quick 48, thorough 200) of ZipArchive::new and of new_append (+1 entry, finish). Oracle: no panic/abort anywhere; if no call returned an error the logical result (entries, content, comment as seen by the crate reader and the independent parser) equals the failure-free result. Non-trivial = the failure-free run performs >=1 I/O call. evaluations counts scenarios; coverage.fault_runs counts injected-fault executions.");
+    ctx.rule("each scenario is first run failure-free under a counting stream (n I/O calls), then re-run with a hard error injected at EVERY call index k<n, as a one-shot and as a sticky failure of kind Other, and with the kinds UnexpectedEof (one-shot, sticky) and Interrupted (one-shot: std's own retry loops swallow it, then the result must be the failure-free one); after the first error the scenario keeps issuing its remaining calls, then finish(), a second finish() and drop. readers: open + read every entry (seekable; streaming fully consumed) of the seed archives (plain, ZIP64, ZipCrypto, AES) and generated archives. writers: generated programs over all entry kinds, methods, extra data, aligned, ZipCrypto, optional append base and raw copies, completed by finish or drop. big_open: archives with > 65535 entries, a fault at every one of the first K I/O calls (quick 48, thorough 200) of ZipArchive::new and of new_append (+1 entry, finish). Oracle: no panic/abort anywhere; if no call returned an error the logical result (entries, content, comment as seen by the crate reader and the independent parser) equals the failure-free result. Non-trivial = the failure-free run performs >=1 I/O call. evaluations counts scenarios; coverage.fault_runs counts injected-fault executions.");
     ctx.assume("streaming entries are read to the end, so the failure lands in a Result-returning call (the documented panic in the streaming ZipFile's drop-time drain is outside the property's wording)");
     ctx.assume("completion by drop swallows errors by design; for drop scenarios only the no-panic clause is checked");
     let seeds = seeds::small_seeds();
